@@ -9,34 +9,51 @@ import (
 
 // StateHash lets a harness report a hash of the component state at a quiescent
 // point ("distinct states reached").
+//
+//go:norace
 func (s *Sim) StateHash(h uint64) {
-	s.mu.Lock()
+	s.lock()
 	if len(s.stateHashes) < 4096 {
 		s.stateHashes = append(s.stateHashes, h)
 	}
-	s.mu.Unlock()
+	s.unlock()
 }
 
 // SetSticky selects the scheduling strategy: den==0 uniform, otherwise switch
 // away from the running task with probability 1/den.
+//
+//go:norace
 func (s *Sim) SetSticky(den int) { s.stickyDen = den }
 
+//go:norace
 func (s *Sim) loop(root func(s *Sim)) {
-	s.start = time.Now()
+	// the scheduler goroutine never touches BFE memory; all of its channel
+	// traffic and bookkeeping is hidden from the race detector
 	rand.Seed(int64(s.Seed)) // BFE uses the global math/rand source in a few places
+	raceDisable()
+	defer raceEnable()
+	s.start = time.Now()
 	s.arrive = make(chan struct{}, 1)
+	s.rootCh = make(chan struct{})
 	curSim.Store(s)
 	atomic.AddInt32(&activeSims, 1)
 	rt := s.newTask(nil, "root", nil)
+	raceEnable() // the root task must be ordered after everything the test set up
 	s.startTask(rt, func() {
-		defer func() { s.mu.Lock(); s.rootDone = true; s.mu.Unlock() }()
+		defer func() {
+			close(s.rootCh) // visible to the race detector: orders the harness's writes before the test goroutine's reads
+			s.lock()
+			s.rootDone = true
+			s.unlock()
+		}()
 		root(s)
 	})
+	raceDisable()
 	for {
 		synctest.Wait()
-		s.mu.Lock()
+		s.lock()
 		done := s.rootDone
-		s.mu.Unlock()
+		s.unlock()
 		if done {
 			break
 		}
@@ -75,12 +92,12 @@ func (s *Sim) loop(root func(s *Sim)) {
 		if t.grant != nil {
 			t.grant()
 		}
-		s.mu.Lock()
+		s.lock()
 		s.schedHash = fnv64(fnvs(fnv64(s.schedHash, uint64(t.op)), t.Name), uint64(t.obj))
 		s.emitLocked(t, t.op.String(), t.obj, "")
 		t.enabled, t.grant = nil, nil
 		atomic.StoreInt32(&t.state, stRunning)
-		s.mu.Unlock()
+		s.unlock()
 		t.wake <- struct{}{}
 		if len(s.invariants) > 0 {
 			synctest.Wait()
@@ -97,16 +114,23 @@ func (s *Sim) loop(root func(s *Sim)) {
 		}
 	}
 	s.simEnd = time.Since(s.start)
+	if s.rootDone {
+		raceEnable()
+		<-s.rootCh
+		raceDisable()
+	}
 	s.kill()
 }
 
 // kill tears down every remaining task: each is woken with the killed flag and
 // leaves through runtime.Goexit; sim ops met by its deferred calls are no-ops.
+//
+//go:norace
 func (s *Sim) kill() {
-	s.mu.Lock()
+	s.lock()
 	s.killing = true
 	ts := append([]*Task(nil), s.tasks...)
-	s.mu.Unlock()
+	s.unlock()
 	for _, t := range ts {
 		t.killed.Store(true)
 	}
